@@ -219,6 +219,44 @@ def oracle(case, rec):
         for tag, net in zip(("dense", "csc", "copy"), nets):
             check_net(rec, net, "after_caller_reuses_buffers_" + tag, g, n, A,
                       w, attrs)
+    if not directed and g["edges"]:
+        # an undirected link may be written in either orientation and the
+        # list in any order (a ring written head to tail, a list from
+        # another tool)
+        ek = list(case.get("ekeys") or []) or [0]
+        el = [list(e) if (ek[k % len(ek)] + k) % 2 else [e[1], e[0]]
+              for k, e in enumerate(g["edges"])]
+        el = [el[i] for i in sorted(range(len(el)),
+                                    key=lambda i: (ek[i % len(ek)], i))]
+        ring = [[e[0], e[1]] if k % 2 == 0 else [e[1], e[0]]
+                for k, e in enumerate(g["edges"])]
+        paths += [
+            ("edge_list_any_orientation", lambda: _set_attrs(
+                Network(edge_list=el, n_nodes=n, directed=False,
+                        node_weights=ww, silence_level=3), attrs)),
+            ("edge_list_alternating_orientation", lambda: _set_attrs(
+                Network(edge_list=np.array(ring), n_nodes=n, directed=False,
+                        node_weights=ww, silence_level=3), attrs)),
+        ]
+        # every cycle of the graph written head to tail: first and second
+        # column then hold every node equally often
+        deg = A.sum(axis=1)
+        if (deg == 2).all():
+            walk, seen = [], set()
+            for start in range(n):
+                if start in seen:
+                    continue
+                prev, cur = None, start
+                while cur not in seen:
+                    seen.add(cur)
+                    nxt = [int(v) for v in np.nonzero(A[cur])[0]
+                           if v != prev]
+                    nxt = nxt[0] if nxt else prev
+                    walk.append([cur, nxt])
+                    prev, cur = cur, nxt
+            paths.append(("edge_list_cycles_head_to_tail", lambda: _set_attrs(
+                Network(edge_list=walk, n_nodes=n, directed=False,
+                        node_weights=ww, silence_level=3), attrs)))
     base = None
     for path, fn in paths:
         ok, net = rec.call("%s_construct" % path, fn)
